@@ -2,7 +2,7 @@
 (* Direction 1 of C02, reference side: TLC evaluates the reference reader (MpqFormat!RefReadFile)  *)
 (* on the bytes of archives written by the library and emits, per archive, the decoded header and  *)
 (* per name the decoded sector lists (method byte | raw, payload) under the standard format and --  *)
-(* where a named deviation of the library applies -- under the library-writer dialect.  Payloads    *)
+(* where named deviations of the library can apply -- under every combination of them.  Payloads    *)
 (* with a method byte are inflated by Python's zlib/bz2; the comparison with what was put into the  *)
 (* archive is decided by TLC in Trace_MpqFormat.  Files whose sectors are all stored raw are        *)
 (* compared byte for byte right here (field `rawsame`).                                            *)
@@ -15,22 +15,25 @@ NoHeaderNat == [hsize |-> -1, asize |-> -1, ver |-> -1, shift |-> -1, htpos |-> 
 
 FileOut(fi) == [res |-> fi.res, flags |-> Hex32(fi.flags), pos |-> fi.pos, csize |-> fi.csize, fsize |-> fi.fsize,
                 blk |-> fi.blk, single |-> fi.single, cflag |-> fi.cflag, enc |-> fi.enc,
-                sectors |-> fi.sectors, stored |-> fi.stored]
+                sectors |-> fi.sectors, stored |-> fi.stored, locale |-> fi.locale, platform |-> fi.platform, crc |-> fi.crc]
 
 AllRaw(fi) == \A si \in 1..Len(fi.sectors) : fi.sectors[si].m = -1
 RawSame(fi, data) ==
   IF fi.res # "ok" \/ ~AllRaw(fi) THEN "n/a"
   ELSE IF ConcatAll([si \in 1..Len(fi.sectors) |-> fi.sectors[si].p]) = data THEN "same" ELSE "differs"
 
+\* std = decoding under the standard format; devs = decodings under every combination of the named
+\* deviations that can matter for this file (smallest combination first)
 DecodeName(bs, ar, ht, bt, nb, data) ==
-  LET std == RefReadFile(bs, ar, ht, bt, nb, Std)
-      lib == RefReadFile(bs, ar, ht, bt, nb, LibW)
-      lab == IF lib.res = "ok" THEN DevLabels(nb, lib) ELSE {}
+  LET std   == RefReadFile(bs, ar, ht, bt, nb, Std)
+      cands == IF std.pos < 0 THEN {}
+               ELSE CandLabels(nb, std.enc, std.single, std.cflag, Has(std.flags, F_SECTORCRC), std.fsize, std.csize,
+                               CeilDiv(std.fsize, SectorSize(ar.hn.shift)), "w")
+      subs  == SubsetSeqs(cands)
   IN  [ nb |-> nb, std |-> FileOut(std), rawsame |-> RawSame(std, data),
-        labels |-> SetToSortSeq(lab, LAMBDA x, y : TRUE),
-        \* the library-dialect decoding is only of interest where it can differ
-        lib |-> IF lab = {} THEN FileOut(NoFile("n/a")) ELSE FileOut(lib),
-        librawsame |-> IF lab = {} THEN "n/a" ELSE RawSame(lib, data) ]
+        devs |-> [di \in 1..Len(subs) |->
+                    LET dv == RefReadFile(bs, ar, ht, bt, nb, DialectOf(subs[di]))
+                    IN  [labels |-> LabelSeq(subs[di]), v |-> FileOut(dv), rawsame |-> RawSame(dv, data)]] ]
 
 Listfile == <<40,108,105,115,116,102,105,108,101,41>>       \* "(listfile)"
 
